@@ -49,26 +49,26 @@ def askExt (ext : Ext) (q : ExtQ) : M ExtA :=
 
 /-! ## constants of `init.go` -/
 
-def strUnitStr : Bytes := b "str-length"
-def numUnitStr : Bytes := b "num-size"
-def sliceLenUnitStr : Bytes := b "slice-len"
-def requiredB : Bytes := b "required"
-def existB : Bytes := b "exist"
-def eitherB : Bytes := b "either"
-def bothEqB : Bytes := b "botheq"
+def strUnitStr : Bytes := b! "str-length"
+def numUnitStr : Bytes := b! "num-size"
+def sliceLenUnitStr : Bytes := b! "slice-len"
+def requiredB : Bytes := b! "required"
+def existB : Bytes := b! "exist"
+def eitherB : Bytes := b! "either"
+def bothEqB : Bytes := b! "botheq"
 def DQ : UInt8 := 34
 
-def errPrefix : Bytes := b "valid \""
+def errPrefix : Bytes := b! "valid \""
 
-def toValErr : Bytes := b "valid \"to\" is not ok, eg: type Test struct {\n    Name string `valid:\"to=1~10\"`\n}"
-def otoValErr : Bytes := b "valid \"to\" is not ok, eg: type Test struct {\n    Name string `valid:\"oto=1~10\"`\n}"
-def eitherValErr : Bytes := b "valid \"either\" is not ok, eg: type Test struct {\n    OrderNo string `valid:\"either=1\"`\n    TradeNo sting `valid:\"either=1\"`\n}, errMsg: \"OrderNo\" either \"TradeNo\" they shouldn't all be empty"
-def bothEqValErr : Bytes := b "valid \"botheq\" is not ok, eg: type Test struct {\n    OrderNo string `valid:\"botheq=1\"`\n    TradeNo sting `valid:\"botheq=1\"`\n}, errMsg: \"OrderNo\" either \"TradeNo\" they shouldn't is no equal"
-def inValErr : Bytes := b "valid \"in\" is not ok, eg: type Test struct {\n   hobby int `valid:\"in=(1/2/3)\"`\n}"
-def includeErr : Bytes := b "valid \"include\" is not ok, filed type must is string, eg: type Test struct {\n    Name string `valid:\"include=(ab/cd)\"`\n}"
-def reErr : Bytes := b "valid \"re\" is not ok, eg: type Test struct {\n    Age string `valid:\"re='\\\\d+'\"`\n}"
-def intsErr : Bytes := b "valid \"ints\" is not ok, eg: type Test struct {\n    Hobby1 string `valid:\"ints\"`\n    Hobby2 string `valid:\"ints=-\"`\n    Hobby3 []string `valid:\"ints\"`\n}"
-def uniqueErr : Bytes := b "valid \"unique\" is not ok, eg: type Test struct {\n    Hobby1 string `valid:\"unique\"`\n    Hobby2 []string `valid:\"unique\"`\n}"
+def toValErr : Bytes := b! "valid \"to\" is not ok, eg: type Test struct {\n    Name string `valid:\"to=1~10\"`\n}"
+def otoValErr : Bytes := b! "valid \"to\" is not ok, eg: type Test struct {\n    Name string `valid:\"oto=1~10\"`\n}"
+def eitherValErr : Bytes := b! "valid \"either\" is not ok, eg: type Test struct {\n    OrderNo string `valid:\"either=1\"`\n    TradeNo sting `valid:\"either=1\"`\n}, errMsg: \"OrderNo\" either \"TradeNo\" they shouldn't all be empty"
+def bothEqValErr : Bytes := b! "valid \"botheq\" is not ok, eg: type Test struct {\n    OrderNo string `valid:\"botheq=1\"`\n    TradeNo sting `valid:\"botheq=1\"`\n}, errMsg: \"OrderNo\" either \"TradeNo\" they shouldn't is no equal"
+def inValErr : Bytes := b! "valid \"in\" is not ok, eg: type Test struct {\n   hobby int `valid:\"in=(1/2/3)\"`\n}"
+def includeErr : Bytes := b! "valid \"include\" is not ok, filed type must is string, eg: type Test struct {\n    Name string `valid:\"include=(ab/cd)\"`\n}"
+def reErr : Bytes := b! "valid \"re\" is not ok, eg: type Test struct {\n    Age string `valid:\"re='\\\\d+'\"`\n}"
+def intsErr : Bytes := b! "valid \"ints\" is not ok, eg: type Test struct {\n    Hobby1 string `valid:\"ints\"`\n    Hobby2 string `valid:\"ints=-\"`\n    Hobby3 []string `valid:\"ints\"`\n}"
+def uniqueErr : Bytes := b! "valid \"unique\" is not ok, eg: type Test struct {\n    Hobby1 string `valid:\"unique\"`\n    Hobby2 []string `valid:\"unique\"`\n}"
 
 /-! ## clause builders (`common.go`) -/
 
@@ -83,13 +83,13 @@ def getJoinValidErrStr (obj field input : Bytes) (others : List Bytes) : Bytes :
     if !obj.isEmpty && !field.isEmpty then [DQ] ++ obj ++ [46] ++ field ++ [DQ, SP]
     else if obj.isEmpty && !field.isEmpty then [DQ] ++ field ++ [DQ, SP]
     else []
-  let head := pre ++ b "input \"" ++ input ++ [DQ]
+  let head := pre ++ b! "input \"" ++ input ++ [DQ]
   match others with
   | [] => head ++ errEndFlag
   | o0 :: _ =>
     let inject : Bytes :=
       if !Bytes.containsSub o0 explainEn && !Bytes.containsSub o0 explainZh then explainEn ++ [SP] else []
-    head ++ b ", " ++ inject ++ Bytes.join [SP] others ++ errEndFlag
+    head ++ b! ", " ++ inject ++ Bytes.join [SP] others ++ errEndFlag
 
 /-- the clause of a violated rule: custom message if present, else the default wording -/
 def violClause (obj field input cusMsg : Bytes) (dflt : List Bytes) : Bytes :=
@@ -100,7 +100,7 @@ def violClause (obj field input cusMsg : Bytes) (dflt : List Bytes) : Bytes :=
 def checkFieldIsStr (obj field : Bytes) (tv : GoVal) : Option Bytes :=
   match tv with
   | .str _ => none
-  | _ => some (getJoinValidErrStr obj field tv.reflectString [explainEn, b "it must is string"])
+  | _ => some (getJoinValidErrStr obj field tv.reflectString [explainEn, b! "it must is string"])
 
 /-! ## `strconv.Atoi` -/
 
@@ -181,8 +181,8 @@ def ruleTo (ext : Ext) (validName obj field : Bytes) (tv : GoVal) (hasEqual : Bo
   | .error e => return getJoinFieldErr obj field e
   | .ok (mn, mx) =>
     let r := validInputSize mn mx tv hasEqual
-    let lessTxt := if hasEqual then b "it is less than" else b "it is less than or equal"
-    let moreTxt := if hasEqual then b "it is more than" else b "it is more than or equal"
+    let lessTxt := if hasEqual then b! "it is less than" else b! "it is less than or equal"
+    let moreTxt := if hasEqual then b! "it is more than" else b! "it is more than or equal"
     if r.less then
       return violClause obj field r.valStr cusMsg [lessTxt, intToBytes mn, r.unit]
     else if r.more then
@@ -197,10 +197,10 @@ def ruleBound (validName obj field : Bytes) (tv : GoVal) (isMin hasEqual : Bool)
   let violated := if isMin then r.less else r.more
   let txt : Bytes :=
     match isMin, hasEqual with
-    | true, true => b "it is less than"
-    | true, false => b "it is less than or equal"
-    | false, true => b "it is more than"
-    | false, false => b "it is more than or equal"
+    | true, true => b! "it is less than"
+    | true, false => b! "it is less than or equal"
+    | false, true => b! "it is more than"
+    | false, false => b! "it is more than or equal"
   if violated then violClause obj field r.valStr cusMsg [txt, intToBytes bound, r.unit] else []
 
 /-- rendering of `ToStr(tv.Interface())` for the values the rules are applied to -/
@@ -214,7 +214,7 @@ def toStrIface (tv : GoVal) : M Bytes :=
       match v with
       | .slice tstr _ _ es | .array tstr _ es =>
         -- `case []byte: return string(value)`
-        if tstr == b "[]uint8" then
+        if tstr == b! "[]uint8" then
           pure (es.toList.filterMap fun e => match e with | .uint _ n => some (UInt8.ofNat n) | _ => none)
         else
           match es.toList.mapM (fun e => match e with
@@ -241,7 +241,7 @@ def ruleEq (validName obj field : Bytes) (tv : GoVal) (wantEq : Bool) : M Bytes 
   if isEq == wantEq then return []
   let input ← toStrIface tv
   return violClause obj field input cusMsg
-    [if wantEq then b "it should equal" else b "it is not equal", eqStr, unit]
+    [if wantEq then b! "it should equal" else b! "it is not equal", eqStr, unit]
 
 /-! ## `in` / `include` -/
 
@@ -249,7 +249,7 @@ def lastIndexByte (c : UInt8) (s : Bytes) : Option Nat := Bytes.lastIndexByte? c
 
 def ruleIn (validName obj field : Bytes) (tv : GoVal) : M Bytes := do
   let (key, val, cusMsg) := parseValidNameKV validName
-  let isInclude := key == b "include"
+  let isInclude := key == b! "include"
   let useErr := if isInclude then includeErr else inValErr
   match Bytes.indexByte? 40 val, lastIndexByte 41 val with
   | some l, some r =>
@@ -261,7 +261,7 @@ def ruleIn (validName obj field : Bytes) (tv : GoVal) : M Bytes := do
     let opts := (validNamesSplit inVals 47).map (Bytes.trimByte QUOTE)
     let isIn := opts.any fun o => if isInclude then Bytes.containsSub tvVal o else tvVal == o
     if isIn then return []
-    return violClause obj field tvVal cusMsg [b "it should " ++ key ++ b " (" ++ inVals ++ b ")"]
+    return violClause obj field tvVal cusMsg [b! "it should " ++ key ++ b! " (" ++ inVals ++ b! ")"]
   | _, _ => return getJoinFieldErr obj field useErr
 
 /-! ## string-format rules -/
@@ -276,16 +276,16 @@ def strRule (validName obj field : Bytes) (tv : GoVal) (ok : Bytes → M Bool) (
     let (_, _, cusMsg) := parseValidNameKV validName
     return violClause obj field s cusMsg [dflt]
 
-def rulePhone (v o f : Bytes) (tv : GoVal) : M Bytes := strRule v o f tv (fun s => pure (Lang.phoneRe s)) (b "it is not phone")
-def ruleEmail (v o f : Bytes) (tv : GoVal) : M Bytes := strRule v o f tv (fun s => pure (Lang.emailRe s)) (b "it is not email")
-def ruleIDCard (v o f : Bytes) (tv : GoVal) : M Bytes := strRule v o f tv (fun s => pure (Lang.idCardRe s)) (b "it is not idcard")
+def rulePhone (v o f : Bytes) (tv : GoVal) : M Bytes := strRule v o f tv (fun s => pure (Lang.phoneRe s)) (b! "it is not phone")
+def ruleEmail (v o f : Bytes) (tv : GoVal) : M Bytes := strRule v o f tv (fun s => pure (Lang.emailRe s)) (b! "it is not email")
+def ruleIDCard (v o f : Bytes) (tv : GoVal) : M Bytes := strRule v o f tv (fun s => pure (Lang.idCardRe s)) (b! "it is not idcard")
 
 def ruleIp (ext : Ext) (v o f : Bytes) (tv : GoVal) (want : Nat) : M Bytes :=
   -- want: 0 = any ip, 1 = ipv4, 2 = ipv6
   strRule v o f tv (fun s => do
       let a ← askExt ext (.parseip s)
       pure (if want == 0 then a.code != 0 else a.code == want))
-    (if want == 0 then b "it is not ip" else if want == 1 then b "it is not ipv4" else b "it is not ipv6")
+    (if want == 0 then b! "it is not ip" else if want == 1 then b! "it is not ipv4" else b! "it is not ipv6")
 
 /-! ### date rules: `GetTimeFmt` is modelled, `time.Parse` is a residual -/
 
@@ -300,13 +300,13 @@ def getTimeFmt (mask : Nat) (splits : List Bytes) : Bytes :=
     if old.isEmpty then join else if join.isEmpty then old else old ++ split ++ join
   let bit (i : Nat) : Bool := mask / 2 ^ i % 2 == 1
   let p0 : Bytes := []
-  let p1 := if bit 0 then joinFn p0 ds (b "2006") else p0
-  let p2 := if bit 1 then joinFn p1 ds (b "01") else p1
-  let p3 := if bit 2 then joinFn p2 ds (b "02") else p2
+  let p1 := if bit 0 then joinFn p0 ds (b! "2006") else p0
+  let p2 := if bit 1 then joinFn p1 ds (b! "01") else p1
+  let p3 := if bit 2 then joinFn p2 ds (b! "02") else p2
   let s0 : Bytes := []
-  let s1 := if bit 3 then joinFn s0 ts (b "15") else s0
-  let s2 := if bit 4 then joinFn s1 ts (b "04") else s1
-  let s3 := if bit 5 then joinFn s2 ts (b "05") else s2
+  let s1 := if bit 3 then joinFn s0 ts (b! "15") else s0
+  let s2 := if bit 4 then joinFn s1 ts (b! "04") else s1
+  let s3 := if bit 5 then joinFn s2 ts (b! "05") else s2
   joinFn p3 dts s3
 
 def timeOk (ext : Ext) (layout : Bytes) (s : Bytes) : M Bool := do
@@ -314,18 +314,18 @@ def timeOk (ext : Ext) (layout : Bytes) (s : Bytes) : M Bool := do
   pure (a.code == 1)
 
 def ruleYear (ext : Ext) (v o f : Bytes) (tv : GoVal) : M Bytes :=
-  strRule v o f tv (timeOk ext (getTimeFmt 1 [])) (b "it is not year, eg: 1996")
+  strRule v o f tv (timeOk ext (getTimeFmt 1 [])) (b! "it is not year, eg: 1996")
 
 def ruleYear2Month (ext : Ext) (v o f : Bytes) (tv : GoVal) : M Bytes :=
   let (_, val, _) := parseValidNameKV v
   let sep := if val.isEmpty then [45] else Bytes.trimByte QUOTE val
-  strRule v o f tv (timeOk ext (getTimeFmt 3 [sep])) (b "it is not year2month, eg: 1996" ++ sep ++ b "09")
+  strRule v o f tv (timeOk ext (getTimeFmt 3 [sep])) (b! "it is not year2month, eg: 1996" ++ sep ++ b! "09")
 
 def ruleDate (ext : Ext) (v o f : Bytes) (tv : GoVal) : M Bytes :=
   let (_, val, _) := parseValidNameKV v
   let sep := if val.isEmpty then [45] else Bytes.trimByte QUOTE val
   strRule v o f tv (timeOk ext (getTimeFmt 7 [sep]))
-    (b "it is not date, eg: 1996" ++ sep ++ b "09" ++ sep ++ b "28")
+    (b! "it is not date, eg: 1996" ++ sep ++ b! "09" ++ sep ++ b! "28")
 
 def ruleDatetime (ext : Ext) (v o f : Bytes) (tv : GoVal) : M Bytes :=
   let (_, val, _) := parseValidNameKV v
@@ -338,7 +338,7 @@ def ruleDatetime (ext : Ext) (v o f : Bytes) (tv : GoVal) : M Bytes :=
   let layout := getTimeFmt 63 [s0, s1, s2]
   -- time.Parse is lenient (one-digit hour, fractional seconds): the code also requires equal length
   strRule v o f tv (fun s => do pure ((← timeOk ext layout s) && s.length == layout.length))
-    (b "it is not datetime, eg: 1996" ++ s0 ++ b "09" ++ s0 ++ b "28" ++ s1 ++ b "23" ++ s2 ++ b "00" ++ s2 ++ b "00")
+    (b! "it is not datetime, eg: 1996" ++ s0 ++ b! "09" ++ s0 ++ b! "28" ++ s1 ++ b! "23" ++ s2 ++ b! "00" ++ s2 ++ b! "00")
 
 /-! ### `re` -/
 
@@ -367,7 +367,7 @@ def ruleRe (ext : Ext) (validName obj field : Bytes) (tv : GoVal) : M Bytes := d
         let (_, _, cusMsg) := parseValidNameKV newValidName
         let a ← askExt ext (.regex pattern s)
         if a.code == 1 then return []
-        return violClause obj field s cusMsg [b "regex match is failed, pattern: " ++ pattern]
+        return violClause obj field s cusMsg [b! "regex match is failed, pattern: " ++ pattern]
 
 /-! ### `int`, `ints`, `float`, `unique` -/
 
@@ -376,11 +376,11 @@ def isIntKind (tv : GoVal) : Bool := match tv with | .int _ _ | .uint _ _ => tru
 def ruleInt (validName obj field : Bytes) (tv : GoVal) : M Bytes := do
   let (_, _, cusMsg) := parseValidNameKV validName
   match tv with
-  | .str s => if Lang.intRe s then return [] else return violClause obj field s cusMsg [b "it is not integer"]
+  | .str s => if Lang.intRe s then return [] else return violClause obj field s cusMsg [b! "it is not integer"]
   | v =>
     if isIntKind v then return []
     let vs ← toStrIface v
-    return violClause obj field vs cusMsg [b "it is not integer"]
+    return violClause obj field vs cusMsg [b! "it is not integer"]
 
 /-- `strings.Split(s, sep)` for a non-empty separator -/
 def splitOn (sep : Bytes) (s : Bytes) : List Bytes :=
@@ -402,13 +402,13 @@ def ruleInts (validName obj field : Bytes) (tv : GoVal) : M Bytes := do
   | .str s =>
     let ok := (splitOn split s).all Lang.intRe
     if ok then return []
-    return violClause obj field s cusMsg [b "it is not separated by \"" ++ split ++ b "\" num"]
+    return violClause obj field s cusMsg [b! "it is not separated by \"" ++ split ++ b! "\" num"]
   | .slice _ _ _ es | .array _ _ es =>
     let parts ← es.toList.mapM toStrIface
     let ok := parts.all Lang.intRe
-    let valStr := [91] ++ Bytes.join (b ", ") parts ++ [93]
+    let valStr := [91] ++ Bytes.join (b! ", ") parts ++ [93]
     if ok then return []
-    return violClause obj field valStr cusMsg [b "slice/array element is not all num"]
+    return violClause obj field valStr cusMsg [b! "slice/array element is not all num"]
   | v =>
     if isIntKind v then return []
     return getJoinFieldErr obj field intsErr
@@ -416,11 +416,11 @@ def ruleInts (validName obj field : Bytes) (tv : GoVal) : M Bytes := do
 def ruleFloat (validName obj field : Bytes) (tv : GoVal) : M Bytes := do
   let (_, _, cusMsg) := parseValidNameKV validName
   match tv with
-  | .str s => if Lang.floatRe s then return [] else return violClause obj field s cusMsg [b "it is not float"]
+  | .str s => if Lang.floatRe s then return [] else return violClause obj field s cusMsg [b! "it is not float"]
   | .float _ _ _ _ => return []
   | v =>
     let vs ← toStrIface v
-    return violClause obj field vs cusMsg [b "it is not float"]
+    return violClause obj field vs cusMsg [b! "it is not float"]
 
 def allDistinct : List Bytes → Bool
   | [] => true
@@ -431,12 +431,12 @@ def ruleUnique (validName obj field : Bytes) (tv : GoVal) : M Bytes := do
   match tv with
   | .str s =>
     if allDistinct (Bytes.splitByte COMMA s) then return []
-    return violClause obj field s cusMsg [b "they're not unique"]
+    return violClause obj field s cusMsg [b! "they're not unique"]
   | .slice _ _ _ es | .array _ _ es =>
     let parts ← es.toList.mapM toStrIface
     let inVal := [91] ++ Bytes.join [COMMA] parts ++ [93]
     if allDistinct parts then return []
-    return violClause obj field inVal cusMsg [b "they're not unique"]
+    return violClause obj field inVal cusMsg [b! "they're not unique"]
   | _ => return getJoinFieldErr obj field uniqueErr
 
 /-! ### `json`, `prefix`, `suffix`, `file`, `dir` -/
@@ -455,14 +455,14 @@ def ruleJson (ext : Ext) (validName obj field : Bytes) (tv : GoVal) : M Bytes :=
     let s := match tv with | .str s => s | _ => []
     let a ← askExt ext (.jsonvalid s)
     if a.code == 1 then return []
-    let shown := strEscape (if s.length > 256 then b "more than 256 byte(it is ignore)" else s)
+    let shown := strEscape (if s.length > 256 then b! "more than 256 byte(it is ignore)" else s)
     let (_, _, cusMsg) := parseValidNameKV validName
-    return violClause obj field shown cusMsg [b "it is not json"]
+    return violClause obj field shown cusMsg [b! "it is not json"]
 
 def rulePrefix (v o f : Bytes) (tv : GoVal) (isPrefix : Bool) : M Bytes :=
   let (_, p, _) := parseValidNameKV v
   strRule v o f tv (fun s => pure (if isPrefix then Bytes.hasPrefix s p else Bytes.hasSuffix s p))
-    (if isPrefix then b "prefix is not ok" else b "suffix is not ok")
+    (if isPrefix then b! "prefix is not ok" else b! "suffix is not ok")
 
 def ruleFileDir (ext : Ext) (validName obj field : Bytes) (tv : GoVal) (wantDir : Bool) : M Bytes := do
   match checkFieldIsStr obj field tv with
@@ -477,7 +477,7 @@ def ruleFileDir (ext : Ext) (validName obj field : Bytes) (tv : GoVal) (wantDir 
       return getJoinValidErrStr obj field s [a.text]
     let isDir := a.code == 1
     if isDir == wantDir then return []
-    return violClause obj field s cusMsg [if wantDir then b "it is not dir" else b "it is not file"]
+    return violClause obj field s cusMsg [if wantDir then b! "it is not dir" else b! "it is not file"]
 
 /-! ## the global rule table `validName2FnMap` -/
 
@@ -487,35 +487,35 @@ inductive Builtin where
 
 def builtin (key : Bytes) : Option Builtin :=
   if key == requiredB || key == existB || key == eitherB || key == bothEqB then some .structural
-  else if key == b "to" then some (.fn fun e v o f tv => ruleTo e v o f tv true)
-  else if key == b "oto" then some (.fn fun e v o f tv => ruleTo e v o f tv false)
-  else if key == b "ge" then some (.fn fun _ v o f tv => pure (ruleBound v o f tv true true))
-  else if key == b "gt" then some (.fn fun _ v o f tv => pure (ruleBound v o f tv true false))
-  else if key == b "le" then some (.fn fun _ v o f tv => pure (ruleBound v o f tv false true))
-  else if key == b "lt" then some (.fn fun _ v o f tv => pure (ruleBound v o f tv false false))
-  else if key == b "eq" then some (.fn fun _ v o f tv => ruleEq v o f tv true)
-  else if key == b "noeq" then some (.fn fun _ v o f tv => ruleEq v o f tv false)
-  else if key == b "in" || key == b "include" then some (.fn fun _ v o f tv => ruleIn v o f tv)
-  else if key == b "phone" then some (.fn fun _ v o f tv => rulePhone v o f tv)
-  else if key == b "email" then some (.fn fun _ v o f tv => ruleEmail v o f tv)
-  else if key == b "idcard" then some (.fn fun _ v o f tv => ruleIDCard v o f tv)
-  else if key == b "year" then some (.fn ruleYear)
-  else if key == b "year2month" then some (.fn ruleYear2Month)
-  else if key == b "date" then some (.fn ruleDate)
-  else if key == b "datetime" then some (.fn ruleDatetime)
-  else if key == b "int" then some (.fn fun _ v o f tv => ruleInt v o f tv)
-  else if key == b "ints" then some (.fn fun _ v o f tv => ruleInts v o f tv)
-  else if key == b "float" then some (.fn fun _ v o f tv => ruleFloat v o f tv)
-  else if key == b "re" then some (.fn ruleRe)
-  else if key == b "ip" then some (.fn fun e v o f tv => ruleIp e v o f tv 0)
-  else if key == b "ipv4" then some (.fn fun e v o f tv => ruleIp e v o f tv 1)
-  else if key == b "ipv6" then some (.fn fun e v o f tv => ruleIp e v o f tv 2)
-  else if key == b "unique" then some (.fn fun _ v o f tv => ruleUnique v o f tv)
-  else if key == b "json" then some (.fn ruleJson)
-  else if key == b "prefix" then some (.fn fun _ v o f tv => rulePrefix v o f tv true)
-  else if key == b "suffix" then some (.fn fun _ v o f tv => rulePrefix v o f tv false)
-  else if key == b "file" then some (.fn fun e v o f tv => ruleFileDir e v o f tv false)
-  else if key == b "dir" then some (.fn fun e v o f tv => ruleFileDir e v o f tv true)
+  else if key == b! "to" then some (.fn fun e v o f tv => ruleTo e v o f tv true)
+  else if key == b! "oto" then some (.fn fun e v o f tv => ruleTo e v o f tv false)
+  else if key == b! "ge" then some (.fn fun _ v o f tv => pure (ruleBound v o f tv true true))
+  else if key == b! "gt" then some (.fn fun _ v o f tv => pure (ruleBound v o f tv true false))
+  else if key == b! "le" then some (.fn fun _ v o f tv => pure (ruleBound v o f tv false true))
+  else if key == b! "lt" then some (.fn fun _ v o f tv => pure (ruleBound v o f tv false false))
+  else if key == b! "eq" then some (.fn fun _ v o f tv => ruleEq v o f tv true)
+  else if key == b! "noeq" then some (.fn fun _ v o f tv => ruleEq v o f tv false)
+  else if key == b! "in" || key == b! "include" then some (.fn fun _ v o f tv => ruleIn v o f tv)
+  else if key == b! "phone" then some (.fn fun _ v o f tv => rulePhone v o f tv)
+  else if key == b! "email" then some (.fn fun _ v o f tv => ruleEmail v o f tv)
+  else if key == b! "idcard" then some (.fn fun _ v o f tv => ruleIDCard v o f tv)
+  else if key == b! "year" then some (.fn ruleYear)
+  else if key == b! "year2month" then some (.fn ruleYear2Month)
+  else if key == b! "date" then some (.fn ruleDate)
+  else if key == b! "datetime" then some (.fn ruleDatetime)
+  else if key == b! "int" then some (.fn fun _ v o f tv => ruleInt v o f tv)
+  else if key == b! "ints" then some (.fn fun _ v o f tv => ruleInts v o f tv)
+  else if key == b! "float" then some (.fn fun _ v o f tv => ruleFloat v o f tv)
+  else if key == b! "re" then some (.fn ruleRe)
+  else if key == b! "ip" then some (.fn fun e v o f tv => ruleIp e v o f tv 0)
+  else if key == b! "ipv4" then some (.fn fun e v o f tv => ruleIp e v o f tv 1)
+  else if key == b! "ipv6" then some (.fn fun e v o f tv => ruleIp e v o f tv 2)
+  else if key == b! "unique" then some (.fn fun _ v o f tv => ruleUnique v o f tv)
+  else if key == b! "json" then some (.fn ruleJson)
+  else if key == b! "prefix" then some (.fn fun _ v o f tv => rulePrefix v o f tv true)
+  else if key == b! "suffix" then some (.fn fun _ v o f tv => rulePrefix v o f tv false)
+  else if key == b! "file" then some (.fn fun e v o f tv => ruleFileDir e v o f tv false)
+  else if key == b! "dir" then some (.fn fun e v o f tv => ruleFileDir e v o f tv true)
   else none
 
 end PGV.Model
